@@ -77,13 +77,26 @@ def rt(R, t):
 
 
 def rot_of(spec):
-    """rotation spec {'axis':[3], 'angle':a, 'via': 'rod'|'quat'|'xyz'} -> 3x3 float matrix"""
+    """rotation spec {'axis':[3], 'angle':a, 'via': 'rod'|'quat'|'xyz'|'conj'|'cube'[, 'noise': {...}]} -> 3x3 float matrix"""
+    nz = spec.get("noise")
+    if nz:
+        # rounding-size perturbation (what composition of valid members leaves behind; far inside every membership test)
+        R = rot_of({k: v for k, v in spec.items() if k != "noise"})
+        N = np.array(nz["pat"], dtype=float).reshape(3, 3)
+        if nz.get("sym"):
+            N = (N + N.T) / 2
+        return R + nz["k"] * np.finfo(float).eps * N
     via = spec.get("via", "rod")
     if via == "quat":
         return rot_via_quat(spec["axis"], spec["angle"])
     if via == "xyz":
         a = spec["axis"]
         return polish(rotz(a[2]) @ roty(a[1]) @ rotx(a[0]))
+    if via == "conj":
+        # the same rotation computed as A R(A'k, angle) A': equal to rounding, but no longer exactly orthonormal / trace <= 3
+        # (what products of valid rotations look like)
+        A = rodrigues([0.36, -0.48, 0.8], 1.1)
+        return A @ rodrigues(A.T @ unit(spec["axis"]), spec["angle"]) @ A.T
     if via == "cube":
         return np.rint(rodrigues(spec["axis"], spec["angle"])) + 0.0      # exact signed-permutation matrix (no -0.0)
     return rodrigues(spec["axis"], spec["angle"])
